@@ -916,11 +916,26 @@ public:
         return promise<T>(*this);
     }
 
+    ///Attach the callback to a future returned by a function
+    /**
+     * @param fn function which returns the future (see future<T>::operator<<)
+     *
+     * @note if the returned future is already resolved, the callback is called before
+     * the operator returns. The callback destroys this object, so nothing is returned
+     * and the object must not be touched after this call.
+     */
     template<typename Factory>
     CXX20_REQUIRES(ReturnsFuture<Factory, T>)
-    future_with_cb &operator << (Factory &&fn) {
+    void operator << (Factory &&fn) {
+        //the callback is registered in the future which future<T>::operator<< destroys and
+        //constructs again: take it out first (the future is then not pending) and register it again
+        [[maybe_unused]] auto cur = this->_awaiter.exchange(&awaiter::instance, std::memory_order_relaxed);
+        assert("The future is already pending or resolved" && cur == static_cast<awaiter *>(this));
+        this->_next = nullptr;
         future<T>::operator<<(std::forward<Factory>(fn));
-        return *this;
+        if (!future_common::subscribe(this)) {
+            awaiter::resume();
+        }
     }
 
     virtual ~future_with_cb() = default;
